@@ -26,7 +26,8 @@ HistGen(k, e, how, f) == IF f = "build.ninja" /\ how = "reconfigured" THEN <<k, 
 SeedConfGen(k, e, how, f) == IF f = "conf.h" THEN <<"*", f, e>> ELSE GoodGen(k, e, how, f)
 AlwaysTouches(f, old, new) == TRUE                                      \* replace_if_different bypassed
 
-\* exported to the driver: the histories of one build-directory incarnation that start at key "A"
+\* exported to the driver: the histories of one build-directory incarnation (the driver's projects are first set up
+\* at key "A"; the single-command life <<Setup B>> is the fresh witness of everything reconfigured to "B")
 EmitShapes == TLCGet("stats").diameter >= 0
-              /\ JsonSerialize("shapes.json", SetToSeq({s \in AllLives : s[1].key = "A"}))
+              /\ JsonSerialize("shapes.json", SetToSeq({s \in AllLives : s[1].key = "A" \/ Len(s) = 1}))
 =============================================================================
